@@ -222,6 +222,19 @@ CLAIMED = {
             "(barrier_more_participants_refuted). Tied to /repo by per-access lock-step of fiber_barrier.c + fiber_manager.c.",
             "Trusts: Coq kernel; extraction + driver; rt/rt.c, rt/t1.c (given C01/C02); SC; -O0.",
             "DESIGN.md 6 C12, 12.3"),
+    "C10": ("Coq invariants (conservation + bypass potential with a ghost bypass counter, erasure proved) over an access-granularity model of "
+            "fiber_scheduler_wsd.c with atomic deques; lock-step trace correspondence",
+            "Machine-checked over every reachable state of one kernel thread's scheduler (any program of spawn/yield/block/wake/idle/balance, any "
+            "length): every existing fiber is in exactly one place and at most N exist; a READY queued fiber is bypassed at most 2(N-1) times before "
+            "`next` hands it out, independently of how long the others keep yielding (so a yield-polling loop cannot starve the fiber it waits for); "
+            "the originally pinned code (schedule() pushing on the deque being drained) is kept as a refuted regression incl. the unbounded (for every "
+            "k) starvation. Tied to /repo by per-access lock-step of fiber_scheduler_wsd.c + work_stealing_deque.c (1-4 kernel threads) and a "
+            "bypass/conservation monitor on the real scheduler code.",
+            "The fairness theorem is for ONE kernel thread (the property's core case); with N threads stealing only removes entries ahead of a waiting "
+            "fiber or moves it to a less loaded thread (argued in DESIGN.md, not proved); multi-thread runs are covered by lock-step and the conservation "
+            "monitor. Trusts: Coq kernel; extraction + driver; rt/rt.c; deque operations atomic (C02 deque theorems); rt/h_sched.c reproduces the "
+            "scheduler-visible actions of fiber_manager_yield/switch_to/do_maintenance by hand (the manager itself is checked on T1/T2).",
+            "DESIGN.md 6 C10, 12.3"),
 }
 
 NOT_YET = "model and proof not built yet in this development (see DESIGN.md 6 for the plan); not claimed until a check exists"
